@@ -404,10 +404,16 @@ def fr3(ctx):
         if not b.path.startswith(FRD) or not any(cs.node == hd.id for cs in b.calls):
             continue
         zeros = []
+        hl = ctx.f.const_value('frame::header::HEADER_LEN')
         for (zbi, zc, zte, zfe, zcs) in b.switches_on_call(lambda c: 'PartialEq<[u8;' in c.name or 'equality::<impl' in c.name):
             # normalise to the edge on which the bytes ARE all zero
             if zcs.name.endswith('::ne'):
                 zte, zfe = zfe, zte
+            # the comparison must cover the whole header: `[u8; N]` with N = HEADER_LEN (a header whose first bytes
+            # happen to be zero -- a zero checksum -- is not the end of the log)
+            mm = re.search(r'\[u8; (\d+)\]', zcs.name)
+            if mm and hl is not None and int(mm.group(1)) != hl:
+                continue
             zeros.append((zbi, zc, zte, zfe, zcs))
         # `bytes.iter().all(|b| *b == 0)` / `!bytes.iter().any(|b| *b != 0)`
         def byte_pred(cb_):
@@ -508,7 +514,43 @@ def fr6(ctx):
                       'the cursor is not advanced before the CRC check: a damaged frame would be re-read')
 
 
-@rule('FR7', ['C10'], floor=3, template='control-dependence')
+@rule('FR9', ['C09'], floor=2, template='guard-dominates-use')
+def fr9(ctx):
+    """A block is quarantined only for the two reasons that make the rest of it unreadable: its next header does not
+    decode, or the frame it announces does not fit the block.  Any other reason (a frame that 'should not be here',
+    a failed payload check) would cost the intact entries that share the block."""
+    from vocab import const_comparisons, switch_on_result
+    from rules_codec import expr_leaves
+    n = 0
+    for b in ctx.f.bodies.values():
+        if b.generic_dup() or not b.path.startswith(FRD):
+            continue
+        q = [p for (p, pl, rv) in stores_to(b, 'FrameReader', 'block_corrupted') if const_store_val(rv) == 1]
+        if not q:
+            continue
+        good = []
+        for cs in b.calls:
+            if cs.path.endswith('Header::deserialize') and cs.dest_local() is not None:
+                re_ = result_edges(b, cs.dest_local())
+                good += re_['err']
+        for c in const_comparisons(ctx, b, 'BLOCK_NUM_BYTES'):
+            lv = expr_leaves(b, c['x'])
+            if not any(x[0] == 'call' and x[1].node is not None and ctx.f.bodies[x[1].node].path.startswith('frame::header::Header::') for x in lv):
+                continue
+            for (bj, te, fe) in switch_on_result(b, c):
+                good.append(te if c['op'] in ('Gt', 'Ge') else fe)
+        k = 0
+        for p in q:
+            n += 1
+            k += 1
+            ok = any(b.edge_dominates(e, p) for e in good)
+            ctx.check(ok, '%s:quarantine#%d' % (b.path, k), where(b, p), 'block quarantined on an undecodable header or a frame overflowing the block',
+                      'a block is quarantined for another reason than an undecodable header or an overflowing frame: the intact entries in the rest of the block would be lost with it')
+    if n == 0:
+        ctx.missing('quarantine', 'no `block_corrupted = true` store found in the frame reader')
+
+
+@rule('FR7', ['C10', 'C01', 'C02'], floor=3, template='control-dependence')
 def fr7(ctx):
     """A quarantined or exhausted block is left before the next header is read."""
     n = 0
